@@ -805,7 +805,11 @@ class SymChecker:
         return False
 
     def _try_models(self, name, idx, s, bad, t0):
-        for k in range(6):
+        s.set('timeout', 4000)
+        s._pv_timeout = 4000
+        for k in range(3):
+            if time.time() - t0 > 40:
+                break
             m = s.model()
             vals = model_to_values(self.env, m)
             try:
